@@ -4,6 +4,7 @@
 -/
 import TrompModel.Model.World
 import Driver.Fmt
+import Driver.RangeDrv
 
 open Tromp
 
@@ -130,6 +131,7 @@ def main (args : List String) : IO UInt32 := do
   let stdout ← IO.getStdout
   match args with
   | ["world"] => Driver.worldLoop stdin stdout {}; return 0
+  | ["range"] => Driver.rangeLoop stdin stdout; return 0
   | _ =>
     IO.eprintln "usage: tmodel world < script"
     return 2
